@@ -512,6 +512,74 @@ def variants_leg(report):
                        {**base, "key": ("vl", name, repr(value)[:60], mode)})
 
 
+def _mutable_parts(exc, depth=0, out=None):
+    """every list / dict / set reachable from the attributes of an exception tree"""
+    out = [] if out is None else out
+    if depth > 4:
+        return out
+    for sub in getattr(exc, "exceptions", ()):
+        _mutable_parts(sub, depth + 1, out)
+    for name, val in list(vars(exc).items()) if hasattr(exc, "__dict__") else ():
+        if isinstance(val, (list, dict, set)) and name not in ("__notes__",):
+            out.append((name, val))
+    return out
+
+
+BAD_DATA = [lambda: "no such thing", lambda: ["X", "Y"], lambda: 123456789, lambda: {"zz": 1}, lambda: [[1]], lambda: None]
+
+
+def error_objects_leg(report):
+    """what a LoadError carries belongs to the caller: emptying or extending every mutable container found in a raised error must
+    not change what the same loader does afterwards (the error must not hand out the loader's own tables)"""
+    from adaptix.load_error import LoadError
+    from checks import c01_extra
+    for leg, gen in (("variant", c01_extra.variant_cases), ("generic", c01_extra.generic_cases)):
+        for name, hint, value, recipe in gen():
+            r = retort_with(recipe, ("ALL", True))
+            try:
+                loader, good = r.get_loader(hint), r.get_dumper(hint)(copy.deepcopy(value))
+            except Exception:  # noqa: BLE001, S112
+                continue
+
+            def attempt(d, loader=loader):
+                try:
+                    return ("ok", loader(d))
+                except LoadError as e:
+                    return ("err", type(e).__name__, repr(e)[:300])
+                except Exception as e:  # noqa: BLE001
+                    return ("exc", type(e).__name__)
+            before = [attempt(copy.deepcopy(good))] + [attempt(mk()) for mk in BAD_DATA]
+            touched = 0
+            for mk in BAD_DATA:
+                try:
+                    loader(mk())
+                except LoadError as e:
+                    for _, part in _mutable_parts(e):
+                        touched += 1
+                        if isinstance(part, list):
+                            part.clear()
+                            part.append("put here by the caller")
+                        elif isinstance(part, dict):
+                            part.clear()
+                        else:
+                            part.clear()
+                except Exception:  # noqa: BLE001, S110
+                    pass
+            after = [attempt(copy.deepcopy(good))] + [attempt(mk()) for mk in BAD_DATA]
+            case = {"kind": "error_objects", "leg": leg, "name": name}
+            report.case(("errobj", name, repr(value)[:60]), nontrivial=touched > 0, sample=case)
+            report.evaluations += 2 * len(before)
+            report.outcome("error objects changed by the caller: " + ("loader unaffected" if before[0][0] == after[0][0] else "loader affected"))
+            for b, a in zip(before, after):
+                same_outcome = (b[0] == a[0]) and (b[0] != "ok" or struct_eq(b[1], a[1])) and (b[0] == "ok" or b[1:] == a[1:])
+                if not same_outcome:
+                    report.violation({"check": "C20.error_objects", "leg": leg},
+                                     f"load {name}: after the containers carried by earlier LoadErrors were changed by the caller, the same "
+                                     f"call gives {codec.show(a, 120)} instead of {codec.show(b, 120)}: the error handed out the loader's own "
+                                     f"table", case)
+                    break
+
+
 def retort_with(recipe, mode):
     from adaptix import DebugTrail
     return Retort(recipe=recipe, debug_trail=DebugTrail[mode[0]], strict_coercion=mode[1])
@@ -526,6 +594,7 @@ def run(tier):
     conv_leg(report)
     conv_pairs_leg(report)
     variants_leg(report)
+    error_objects_leg(report)
     return report
 
 
@@ -546,6 +615,8 @@ def replay(case):
         conv_pairs_leg(report)
     elif case["kind"] == "variant":
         variants_leg(report)
+    elif case["kind"] == "error_objects":
+        error_objects_leg(report)
     else:
         conv_leg(report)
     for v in report.violations.values():
